@@ -68,6 +68,8 @@ def comp_blocks(comp):
         'outfunc': [('of', 'outfunc', {}), ('s1', 'sync', {})],
         'outasync': [('oa', 'outasync', {'mode': 'wait'}), ('s1', 'sync', {}), ('oc', 'outasync', {'mode': 'cancel'})],
         'outasync-start': [('os', 'outasync', {'mode': 'start'}), ('s1', 'sync', {})],
+        # the results of the start-mode runs are sent to 's1' (whose handler may be the fault site)
+        'outasync-start-chain': [('os', 'outasync', {'mode': 'start', 'next': 's1'}), ('s1', 'sync', {})],
         # results of 'oj' keep arriving at 'og' after og's stop() (og is in its guard time then)
         'outasync-chain': [('oj', 'outasync', {'mode': 'wait', 'next': 'og'}), ('s1', 'sync', {}),
                            ('og', 'outasync', {'mode': 'cancel', 'guard': 2})],
@@ -81,7 +83,7 @@ def comp_blocks(comp):
 
 
 COMPS = ['sync2', 'async-stop', 'async-stop-timeout', 'async-stop-timeout2', 'maintask', 'fsm', 'outfunc', 'outasync',
-         'outasync-start', 'outasync-chain', 'repeat', 'slow-init', 'valuepoll', 'cblock', 'chain', 'mix']
+         'outasync-start', 'outasync-start-chain', 'outasync-chain', 'repeat', 'slow-init', 'valuepoll', 'cblock', 'chain', 'mix']
 PROBE_KINDS = {'sync', 'astop', 'maintask', 'ainit'}
 
 
@@ -388,6 +390,14 @@ def run_case(cfg, acc):
             if cause == 'support-raises':
                 raise Fault('supporting task')
 
+        async def slow_support():
+            # a second supporting task whose own clean-up after the cancellation takes time
+            try:
+                await asyncio.get_running_loop().create_future()
+            finally:
+                await asyncio.sleep(3)      # (the driver notices the end of run() within 1 s)
+                res['slow_support_done'] = sim.now
+
         async def traffic():
             """Make the circuit do something: events to every block incl. the fault trigger."""
             for name, kind, _p in specs:
@@ -419,7 +429,7 @@ def run_case(cfg, acc):
                 elif cause == 'shutdown':
                     circuit.abort(asyncio.CancelledError('early'))
             if entry == 'run':
-                main = asyncio.create_task(edzed.run(support()))
+                main = asyncio.create_task(edzed.run(support(), slow_support()))
             else:
                 main = asyncio.create_task(circuit.run_forever())
             res['main_task'] = main
